@@ -467,7 +467,8 @@ def describe_outcome(kind, exc):
     if kind == 'ok':
         return ('ok', None)
     if isinstance(exc, SIM_ERRORS) and getattr(exc, 'tag', None) is not None:
-        return ('SimErr', exc.tag)
+        # (the very exception the event failed with: a collected failure stays collected)
+        return ('SimErr', exc.tag, 'collected' if isinstance(exc, usim.Concurrent) else 'plain')
     return (type(exc).__name__, None)
 
 
